@@ -622,8 +622,9 @@ Lemma end_comment_range_ok : forall v id s s',
   st_ok s -> end_comment_range v id s = Ok s' -> st_ok s'.
 Proof.
   intros v id s s' Hs H. unfold end_comment_range in H.
-  bind_inv H as n E. bind_inv H as bn E1. destruct bn as [b n0].
-  injection H as H. subst. exact Hs.
+  destruct (dict_get id (c_ranges s)) as [[b n0]|].
+  - bind_inv H as n E. injection H as H. subst. exact Hs.
+  - injection H as H. subst. exact Hs.
 Qed.
 
 (* ---------- table cells ---------- *)
@@ -711,9 +712,13 @@ Proof.
   { clear H Espan.
     match type of Es1 with (if ?c then _ else _) = _ => destruct c end.
     - bind_inv Es1 as sa Esa. bind_inv Es1 as t Et. bind_inv Es1 as rows Er.
-      bind_inv Es1 as prev Ep. bind_inv Es1 as cells Ec. bind_inv Es1 as src Esrc.
+      bind_inv Es1 as prev Ep. bind_inv Es1 as cells Ec. cbv zeta in Es1.
+      apply set_caret_ok in Esa; [|exact Hs].
+      destruct cells as [|cell0 cells0]; [injection Es1 as Es1; subst s1; exact Esa|].
+      destruct (py_nth (rev prev) (Z.of_nat (length (cell0 :: cells0)) - 1)) as [src|] eqn:En;
+        [|injection Es1 as Es1; subst s1; exact Esa].
       bind_inv Es1 as root' Eroot. injection Es1 as Es1. subst s1.
-      apply set_caret_ok in Esa; [|exact Hs]. destruct Esa as (Ht & Ho & Hq).
+      destruct Esa as (Ht & Ho & Hq).
       split; [|split]; cbn; try assumption.
       assert (Hrows : Forall node_ok rows).
       { destruct (py_get (c_tree sa) (length (c_tree s) - 1)) as [t0|] eqn:Eg; [|discriminate Et].
@@ -725,8 +730,7 @@ Proof.
         eapply as_list_ok; [exact Ep|].
         inversion Hrows as [|? ? _ Hr]; subst. inversion Hr; subst. assumption. }
       assert (Hsrc : node_ok src).
-      { destruct (py_nth (rev prev) (Z.of_nat (length cells) - 1)) as [x|] eqn:En; [|discriminate Esrc].
-        cbn in Esrc. injection Esrc as Esrc. subst x. apply py_nth_In in En.
+      { apply py_nth_In in En.
         apply in_rev in En. eapply Forall_In'; eauto. }
       eapply upd_row_ok; [|exact Ht|exact Eroot].
       intros cs cs' Hcs Hcs'. destruct cs as [|c0 r]; [discriminate Hcs'|].
@@ -826,7 +830,7 @@ Proof.
     eapply (add_then_ok v [TRaw 10]); [reflexivity|exact Hs|exact H]. }
   destruct (str_eqb (e_ptag e) tag_SYM).
   { bind_inv H as font E1. bind_inv H as chr E2.
-    destruct (ostr_or_None chr) as [|c0 tl0].
+    destruct (ostr chr) as [|c0 tl0].
     - injection H as H. subst r. exact Hs.
     - unfold add_code_into_open_run in H.
       eapply add_then_ok; [apply sym_toks_balanced|exact Hs|exact H]. }
@@ -926,21 +930,22 @@ Proof.
     bind_inv H as s1 E1. bind_inv H as body Eb. bind_inv H as s2r Eo.
     destruct s2r as [s2 recurse]. bind_inv H as s3 Ek. bind_inv H as s4 Ec.
     apply set_caret_ok in E1; [|exact Hs].
-    assert (Hbody : Forall balanced body).
+    assert (Hbody : balanced body).
     { destruct (str_eqb (e_ptag e) tag_HYPERLINK).
       - clear - IH Eb. revert body Eb. generalize O.
         induction IH as [|k r Hk Hr IHr]; intros i body Eb.
-        + injection Eb as Eb. subst. constructor.
+        + injection Eb as Eb. subst. reflexivity.
         + cbn [bind] in Eb.
           bind_inv Eb as sk Esk. bind_inv Eb as sk' Esk'. bind_inv Eb as ps Eps.
           bind_inv Eb as rest Erest. injection Eb as Eb. subst body.
-          apply Forall_app. split.
-          * eapply tree_par_toks_ok; [exact Eps|].
+          apply balanced_app.
+          * apply join_toks_balanced.
+            eapply tree_par_toks_ok; [exact Eps|].
             apply Hk in Esk; [|exact init_st_ok].
             apply finish_st_ok in Esk'; [|exact Esk]. apply Esk'.
           * eapply IHr; exact Erest.
-      - injection Eb as Eb. subst. constructor. }
-    apply open_tag_ok in Eo; [|apply join_toks_balanced; exact Hbody|exact E1].
+      - injection Eb as Eb. subst. reflexivity. }
+    apply open_tag_ok in Eo; [|exact Hbody|exact E1].
     cbn [fst] in Eo.
     assert (Hs3 : st_ok s3).
     { destruct recurse.
